@@ -35,6 +35,9 @@ type PeerScenario struct {
 	Locator string     `json:"locator"`
 	Aux     []string   `json:"aux"`
 	Secure  *SecureCfg `json:"secure,omitempty"`
+	// C17: a status updater on the library session, and per-write pacing of the link
+	Status       bool `json:"status"`
+	WriteDelayMs int  `json:"writedelayms"`
 }
 
 // SecureCfg configures the secure-login callback of the library side (C16).
@@ -155,6 +158,10 @@ func RunPeerScenario(ps *PeerScenario) ([]rec.Event, Result) {
 	sess.IsMaster(!ps.Script.Master)
 	sess.SetLogger(log.New(os.Stderr, "", 0))
 	sess.SetLogger(discard)
+	if ps.Status {
+		sess.SetStatusUpdater(statusRec{"A", r})
+		l.WriteDelay = time.Duration(ps.WriteDelayMs) * time.Millisecond
+	}
 	if ps.UA[0] != "" {
 		sess.SetUserAgent(fbb.UserAgent{Name: ps.UA[0], Version: ps.UA[1]})
 	}
